@@ -35,7 +35,7 @@ ASSUMPTIONS = []
 def cases(rng, tier):
     out = []
     for i in range(2500 if tier == "quick" else 40000):
-        prog = (proggen.gen_resample_program(rng) if i % 10 == 9 else proggen.gen_empty_selection_program(rng) if i % 10 == 4 else
+        prog = (proggen.gen_resample_program(rng) if i % 10 == 9 else proggen.gen_empty_selection_program(rng) if i % 10 == 4 else proggen.gen_mixed_concat_program(rng) if i % 20 == 7 else
                 proggen.gen_program(rng, rng.randint(1, 10), chain=(i % 4 == 3)))
         out.append({"prog": prog, "variant": rng.randint(0, 29)})
     return out
@@ -94,6 +94,8 @@ def lean_prog(prog):
             out.append({"s": "read", "x": st["x"]})
         elif st["s"] == "fill":           # x.fill(v) = x[...] = v
             out.append({"s": "assign", "x": st["x"], "idx": {"r": {"t": "all"}, "c": None}, "val": {"t": "scalar", "v": st["v"]}})
+        elif st["s"] == "new":
+            out.append({k: v for k, v in st.items() if k != "dt"})      # (the model's cells are integers whatever the element type)
         elif st["s"] in ("concat1", "astype"):
             out.append({"s": "select", "x": st["x"], "idx": {"r": {"t": "slice", "a": None, "b": None, "k": None}, "c": None}})
         else:
